@@ -145,6 +145,47 @@ theorem none_iff_no_section_defines (secs : List LocSection) (name : Str) :
     simp only [this, iff_false]
     split <;> simp
 
+/-! ### matching uses the FULL location string (segment parameters included) -/
+
+/-- the components a `LocationMatcher` matches against are those of the location
+as given: for a location `pre/seg` the last component is the WHOLE last segment
+`seg` — with any `,branch=…` / `,k=v` parameters it carries -/
+theorem location_keeps_segment_parameters (pre seg : Str) (hne : seg ≠ []) (hns : '/' ∉ seg) :
+    parts (pre ++ '/' :: seg) = splitSlash pre ++ [seg] := by
+  unfold parts
+  rcases List.eq_nil_or_concat seg with h | ⟨init, l, h⟩
+  · exact absurd h hne
+  · rw [List.concat_eq_append] at h
+    have hl : l ≠ '/' := fun e => hns (by rw [h, e]; simp)
+    have e : pre ++ '/' :: seg = (pre ++ '/' :: init) ++ [l] := by rw [h]; simp
+    rw [e, rstripSlash_concat _ l hl, ← e, splitSlash_append, splitSlash_noslash seg hns]
+
+/-- a section named exactly like the location (parameters included, no glob
+characters) matches it completely: all components, empty extra path — so it is
+the most specific candidate there can be -/
+theorem own_section_matches_completely (location : Str) :
+    compsMatch (parts location) ((parts location).map litToks) = true ∧
+    extraPath (parts location) ((parts location).map litToks).length = [] := by
+  refine ⟨(compsMatch_lits _ _).mpr (List.prefix_refl _), ?_⟩
+  simp [extraPath, joinSlash]
+
+/-- … while a section named like the location WITHOUT its parameters does not
+match it component-wise (its last component `base` is not the location's last
+component `base,params`): stripping the parameters before matching would change
+which sections apply -/
+theorem stripped_section_does_not_match (pre base params : Str) :
+    compsMatch (splitSlash pre ++ [base ++ ',' :: params]) ((splitSlash pre ++ [base]).map litToks) = false := by
+  cases h : compsMatch (splitSlash pre ++ [base ++ ',' :: params]) ((splitSlash pre ++ [base]).map litToks) with
+  | false => rfl
+  | true =>
+    have hp := (compsMatch_lits _ _).mp h
+    have hlen : (splitSlash pre ++ [base]).length = (splitSlash pre ++ [base ++ ',' :: params]).length := by simp
+    have heq := hp.eq_of_length hlen
+    have := List.append_cancel_left heq
+    simp only [List.cons.injEq, and_true] at this
+    have hl := congrArg List.length this
+    simp at hl
+
 /-! ### ignore_parents -/
 
 /-- `LocationMatcher.get_sections`: the search goes from the most specific
@@ -388,7 +429,7 @@ def branchnameRef : Str := '{' :: branchnameN ++ ['}']
 has no `{`) -/
 theorem relpath_basename_expansion (s : LocSection) (pre rest : Str) (hpre : '{' ∉ pre) :
     expandLocals s (pre ++ relpathRef ++ rest) = pre ++ s.extra ++ expandLocals s rest ∧
-    expandLocals s (pre ++ basenameRef ++ rest) = pre ++ urlBasename s.extra ++ expandLocals s rest ∧
+    expandLocals s (pre ++ basenameRef ++ rest) = pre ++ urlBasenameU s.extra ++ expandLocals s rest ∧
     expandLocals s (pre ++ branchnameRef ++ rest) = pre ++ s.branch ++ expandLocals s rest := by
   induction pre with
   | nil =>
@@ -624,5 +665,15 @@ example : (some ['/', 'a', '/', 'b'] : Option Str).all plainSec = true ∧
 -- … and expansion
 example : expandLocals ⟨none, [], ['x', '/', 'y'], ['b']⟩ (['p', '-'] ++ relpathRef ++ ['.'] ++ basenameRef)
     = ['p', '-', 'x', '/', 'y', '.', 'y'] := by decide
+
+-- segment parameters: the branch name comes from `,branch=…`, else from the basename;
+-- a sub-segment without `=` is an InvalidURL
+example : segBranch ['/', 'r', '/', ',', 'b', 'r', 'a', 'n', 'c', 'h', '=', 'f'] = .fromParam ['f'] ∧
+    branchOf ['/', 'r', '/', 'b', ',', 'q', '=', '1'] = ['b', ',', 'q', '=', '1'] ∧
+    segBranch ['/', 'a', ',', 'b'] = .invalid ∧
+    segBranch ['/', 'a', ',', 'b', 'r', 'a', 'n', 'c', 'h', '=', 'x', '/', 'c'] = .noParam := by decide
+-- hypotheses of location_keeps_segment_parameters for `/r/b,branch=f`
+example : (['b', ',', 'b', 'r', 'a', 'n', 'c', 'h', '=', 'f'] : Str) ≠ [] ∧ '/' ∉ (['b', ',', 'b', 'r', 'a', 'n', 'c', 'h', '=', 'f'] : Str) := by
+  decide
 
 end BreezyVerif.C49
